@@ -151,9 +151,10 @@ def oracle_sec(which):
 
 REGISTRY = {
     'C04': {
-        'theorems': ['PP.C04.sound', 'PP.C04.sound_plain', 'PP.C04.ann_balanced', 'PP.C04.render_trim',
+        'theorems': ['PP.C04.sound', 'PP.C04.sound_plain', 'PP.C04.sound_pformat', 'PP.C04.sound_str', 'PP.Pr.evalStr_bounded',
+                     'PP.C04.ann_balanced', 'PP.C04.ann_balanced_pformat', 'PP.C04.render_trim',
                      'PP.lay_normalize', 'PP.run_sound', 'PP.Doc.size_normalize'],
-        'modules': ENGINE_MODULES + ['PP.Props.C04'],
+        'modules': ENGINE_MODULES + ['PP.Proofs.EvBound', 'PP.Props.C04'],
         'sections': [{'name': 'engine', 'run': engine_section(classic=False)}],
         'replay': engine_replay,
         'rule': 'engine correspondence: exhaustive small documents x widths x ribbon fractions x strategies, plus seeded random documents',
@@ -189,14 +190,14 @@ REGISTRY = {
                         'repr(str)/repr(bytes) are modelled (reprCharStr/reprCharBytes) and compared with CPython on every case'],
     },
     'C01': {
-        'theorems': ['PP.C04.sound', 'PP.C02.lines_join', 'PP.C02.lines_nonempty', 'PP.C01.sorted_perm', 'PP.C01.insertion_order'],
+        'theorems': ['PP.C04.sound_pformat', 'PP.C02.lines_join', 'PP.C02.lines_nonempty', 'PP.C01.sorted_perm', 'PP.C01.insertion_order'],
         'modules': VALUE_MODULES + ['PP.Props.Values'],
         'sections': [{'name': 'builtin-values', 'run': values_sec('builtin_values_section')}],
         'trusted': VALUE_TRUSTED,
         'rule': 'pformat of built-in value trees vs the model (SDoc stream + text), eval oracle with exact types',
     },
     'C03': {
-        'theorems': ['PP.C04.sound', 'PP.C02.lines_join', 'PP.C03.nests_are_indent'],
+        'theorems': ['PP.C04.sound_pformat', 'PP.C02.lines_join', 'PP.C03.nests_are_indent'],
         'modules': VALUE_MODULES + ['PP.Props.Values'],
         'sections': [{'name': 'builtin-values', 'run': values_sec('builtin_values_section')},
                      {'name': 'comments', 'run': values_sec('comments_section', mode='c03')},
@@ -206,35 +207,35 @@ REGISTRY = {
         'rule': 'same syntax tree (ast.dump) across all layout settings of each value; every line indented by a multiple of indent',
     },
     'C08': {
-        'theorems': ['PP.C04.sound', 'PP.C08.wrapper_shape', 'PP.C08.wrapper_seq', 'PP.C08.wrapper_int'],
+        'theorems': ['PP.C04.sound_pformat', 'PP.C08.wrapper_shape', 'PP.C08.wrapper_seq', 'PP.C08.wrapper_int'],
         'modules': VALUE_MODULES + ['PP.Props.Values'],
         'sections': [{'name': 'subclasses', 'run': values_sec('subclasses_section')}],
         'trusted': VALUE_TRUSTED,
         'rule': 'instances of generated subclasses of the nine built-in bases, nested, all layouts; eval reconstructs class and value',
     },
     'C09': {
-        'theorems': ['PP.C04.sound', 'PP.C09.commentdoc_lines', 'PP.C09.empty_comment_ignored'],
+        'theorems': ['PP.C04.sound_pformat', 'PP.C09.commentdoc_lines', 'PP.C09.empty_comment_ignored'],
         'modules': VALUE_MODULES + ['PP.Props.Values'],
         'sections': [{'name': 'comments', 'run': values_sec('comments_section')}],
         'trusted': VALUE_TRUSTED,
         'rule': 'comment / trailing_comment placements, adversarial texts; eval == uncommented value, same ast, words preserved',
     },
     'C10': {
-        'theorems': ['PP.C04.sound', 'PP.C10.truncation_text', 'PP.C10.no_limit', 'PP.C10.large_limit'],
+        'theorems': ['PP.C04.sound_pformat', 'PP.C10.truncation_text', 'PP.C10.no_limit', 'PP.C10.large_limit'],
         'modules': VALUE_MODULES + ['PP.Props.Values'],
         'sections': [{'name': 'truncation', 'run': values_sec('truncation_section')}],
         'trusted': VALUE_TRUSTED,
         'rule': 'container trees x max_seq_len in {1..maxlen+1, None}',
     },
     'C11': {
-        'theorems': ['PP.C04.sound', 'PP.C11.depth_zero_placeholder', 'PP.C11.unlimited_never_zero'],
+        'theorems': ['PP.C04.sound_pformat', 'PP.C11.depth_zero_placeholder', 'PP.C11.unlimited_never_zero'],
         'modules': VALUE_MODULES + ['PP.Props.Values'],
         'sections': [{'name': 'depth', 'run': values_sec('depth_section')}],
         'trusted': VALUE_TRUSTED,
         'rule': 'container trees with unique leaves x depth in {0..height+2, None}',
     },
     'C17': {
-        'theorems': ['PP.C04.sound', 'PP.C17.empty_call', 'PP.C17.hug_only_exact'],
+        'theorems': ['PP.C04.sound_pformat', 'PP.C17.empty_call', 'PP.C17.hug_only_exact'],
         'modules': VALUE_MODULES + ['PP.Props.Values'],
         'sections': [{'name': 'calls', 'run': values_sec('calls_section')},
                      {'name': 'dataclasses-attrs', 'run': simple_sec('sec_extras', 'extras_section')}],
@@ -308,7 +309,7 @@ REGISTRY = {
     },
     'C07': {
         'theorems': ['PP.C07.timedelta', 'PP.C07.timedelta_ranges', 'PP.C07.dropWhile_zero_restores', 'PP.C07.time_fields',
-                     'PP.C07.datetime_date_only', 'PP.C07.chainmap_shortcut', 'PP.C07.deque_maxlen', 'PP.C04.sound'],
+                     'PP.C07.datetime_date_only', 'PP.C07.chainmap_shortcut', 'PP.C07.deque_maxlen', 'PP.C04.sound_pformat'],
         'modules': VALUE_MODULES + ['PP.Model.Std', 'PP.Props.C07'],
         'sections': [{'name': 'stdlib', 'run': simple_sec('sec_stdlib', 'stdlib_section')},
                      {'name': 'builtin-values', 'run': values_sec('builtin_values_section')}],
